@@ -250,6 +250,9 @@ class GrabbedMessage {
  * Handles input from and output to the bus with respect to the eBUS protocol.
  */
 class BusHandler : public ProtocolListener {
+#ifdef EBUSD_VERIF
+  friend struct VerifAccess;  // verification harness access (no behaviour change)
+#endif
  public:
   /**
    * Construct a new instance.
